@@ -26,7 +26,36 @@ import (
 
 type urlDecl struct {
 	scheme, host, hostname, path, rawquery, fragment *Term
-	synth bool // produced by (*URL).String() of a structured URL (scheme already lower-case)
+	hostLit, portPart *Term // host == hostLit ++ portPart when known (declared URLs)
+	synth             bool  // produced by (*URL).String() of a structured URL (scheme already lower-case)
+}
+
+// strEq is Go's string equality with one structural short cut: two declared structured URLs
+// (see the contract at zz.DeclareURLParts: raw is *exactly* the canonical concatenation of its
+// delimiter-free components, so the decomposition is unique) are equal iff their components are;
+// a declared raw text equals the String() of a structured URL iff the components are equal, the
+// scheme was written in lower case and String() emitted the "//".
+func (m *Machine) strEq(a, b *Term) *Term {
+	if a.IsConst() || b.IsConst() || m.urls == nil {
+		return mkEq(a, b)
+	}
+	da, db := m.urls[a.String()], m.urls[b.String()]
+	if da == nil || db == nil || (da.synth && db.synth) {
+		return mkEq(a, b)
+	}
+	hostEq := mkEq(da.host, db.host)
+	if da.hostLit != nil && db.hostLit != nil {
+		hostEq = mkAnd(mkEq(da.hostLit, db.hostLit), mkEq(da.portPart, db.portPart))
+	}
+	r := mkAnd(mkEq(da.scheme, db.scheme), hostEq, mkEq(da.path, db.path), mkEq(da.rawquery, db.rawquery), mkEq(da.fragment, db.fragment))
+	if da.synth || db.synth {
+		s := da
+		if db.synth {
+			s = db
+		}
+		r = mkAnd(r, mkOr(nonEmptyT(s.host), nonEmptyT(s.path)))
+	}
+	return r
 }
 
 func (m *Machine) declareURL(raw *Term, d *urlDecl) {
@@ -70,12 +99,15 @@ func init() {
 		m.note("structured URLs: the parse of a string built from declared delimiter-free components is its components (checked against net/url on every native replay)")
 		return nil
 	}
-	// DeclareURLHost(raw, scheme, host, hostname, path, rawquery, fragment): host is the complete authority
-	// (hostname plus optional ":port"), hostname what (*URL).Hostname() returns.
-	zzAPI["DeclareURLHost"] = func(fr *frame, a []value) value {
+	// DeclareURLParts(raw, scheme, hostLit, portPart, path, rawquery, fragment): raw is exactly
+	//   [scheme "://" | "//" when scheme is ""] hostLit portPart path ["?" rawquery] ["#" fragment]
+	// hostLit a registered name or a bracketed IPv6 literal, portPart "" or ":" digits*.
+	zzAPI["DeclareURLParts"] = func(fr *frame, a []value) value {
 		m := fr.i.m
-		m.declareURL(strArg(a[0]), &urlDecl{scheme: strArg(a[1]), host: strArg(a[2]), hostname: strArg(a[3]), path: strArg(a[4]), rawquery: strArg(a[5]), fragment: strArg(a[6])})
-		m.note("structured URLs: the parse of a string built from declared delimiter-free components is its components (checked against net/url on every native replay)")
+		hostLit, portPart := strArg(a[2]), strArg(a[3])
+		m.declareURL(strArg(a[0]), &urlDecl{scheme: strArg(a[1]), host: mkConcat(hostLit, portPart), hostname: stripBrackets(hostLit), hostLit: hostLit, portPart: portPart,
+			path: strArg(a[4]), rawquery: strArg(a[5]), fragment: strArg(a[6])})
+		m.note("structured URLs: the parse of a string built from declared delimiter-free components is its components; two such strings are equal iff their components are (checked against net/url on every native replay)")
 		return nil
 	}
 }
